@@ -9,6 +9,7 @@ A contact is put into one of the states
   established  session up, nothing queued
   transfer     session up, an own three-segment bundle queued, the peer has not acknowledged anything
   ending       session up, terminate() already called on this contact, the peer has not answered
+  refused      as transfer; the peer will answer the completely sent bundle with XFER_REFUSE instead of acknowledging it
 
 then the action is applied to the agent, and from then on every peer cooperates
 fully: it completes the handshake if the endpoint still wants it, acknowledges
@@ -20,7 +21,7 @@ import dbus
 
 from . import ref9174 as r, simloop, simnet, tcpcl_world as tw
 
-STATES = ['connecting', 'negotiating', 'established', 'transfer', 'ending']
+STATES = ['connecting', 'negotiating', 'established', 'transfer', 'ending', 'refused']
 # one more, used with active contacts only: the peer has answered the contact header, and its SESS_INIT together with the
 # first segment of a transfer of its own are on their way (not yet delivered) when the action is applied
 PEER_AHEAD = 'peer-ahead'
@@ -89,7 +90,12 @@ class Contact(object):
                 if seg['flags'] & 2:
                     cum[seg['id']] = 0
                 cum[seg['id']] = cum.get(seg['id'], 0) + len(seg['data']) // 2
-                if idx >= self.acked:
+                if idx >= self.acked and self.state == 'refused':
+                    if seg['flags'] & 1:
+                        self.peer_send({'t': 'XFER_REFUSE', 'reason': 2, 'id': seg['id']})
+                    self.acked = idx + 1
+                    did = True
+                elif idx >= self.acked:
                     self.peer_send({'t': 'XFER_ACK', 'flags': seg['flags'], 'id': seg['id'], 'length': cum[seg['id']]})
                     self.acked = idx + 1
                     did = True
@@ -170,7 +176,7 @@ class AgentWorld(object):
                 con.peer_send({'t': 'XFER_SEGMENT', 'flags': 2, 'id': 77, 'ext': [], 'data': b'abc'.hex()})
                 con.ahead = 'started'
         for con in self.contacts:
-            if con.state == 'transfer':
+            if con.state in ('transfer', 'refused'):
                 con.level = 'ch'      # stop acknowledging
                 con.own_id = self.call_hdl(con, 'send_bundle_data', dbus.ByteArray(BUNDLE))
             elif con.state == 'ending':
